@@ -208,12 +208,24 @@ def late_fault(ocp, st, S, fault, pos, sol=None):
         raise KeyError(fault)
 
 
-def scenario(base, method, fault, pos, after):
-    """returns ('raised', where, type) | ('solver_called',) | ('silent',)"""
+def scenario(base, method, fault, pos, after, shared=False):
+    """returns ('raised', where, type) | ('solver_called',) | ('silent',)
+
+    shared: the method INSTANCE given to this Ocp was given before to another, well-posed Ocp of the same process
+    (solver declared before the method, then solved): nothing of that first Ocp may make the ill-posed one acceptable."""
     import rockit, casadi as ca
     Block.install()
     Block.calls = 0
     Block.armed = False
+    mobj = None
+    if shared:
+        mobj = make_method(method)
+        o1 = rockit.Ocp(T=2)
+        fill_stage(o1, base, None, 0, False, with_pc=(method != "Spline"))
+        o1.solver(*SOLVER)
+        o1.method(mobj)
+        o1.solve_limited()
+    mk = (lambda: mobj) if shared else (lambda: make_method(method))
     late = fault in FAULTS and FAULTS[fault][2] and (after or True) if fault else False
     decl_fault = fault is not None and not FAULTS[fault][2]
     two = base == "twostage"
@@ -230,13 +242,13 @@ def scenario(base, method, fault, pos, after):
                     q = st.parameter(); st.subject_to(S["x"][0] <= 10 + q); S["q"] = q
                 stages.append((st, S))
                 if not (fault == "missing_method" and pos == i):
-                    st.method(make_method(method))
+                    st.method(mk())
             ocp.subject_to(stages[0][0].at_tf(stages[0][1]["x"][0]) == stages[1][0].at_t0(stages[1][1]["x"][0]))
         else:
             S = fill_stage(ocp, base, fault if decl_fault and fault not in ("missing_method", "missing_solver") else None, pos, False, with_pc=(method != "Spline"))
             stages.append((ocp, S))
             if fault != "missing_method":
-                ocp.method(make_method(method))
+                ocp.method(mk())
         if fault != "missing_solver":
             ocp.solver(*SOLVER)
         sol = None
@@ -305,17 +317,21 @@ def cases(tier):
                         continue
                     for after in ((False, True) if can_late else (False,)):
                         out.append(dict(base=base, method=method, fault=fault, pos=pos, after=after))
+                    if base != "twostage" and fault != "missing_method":
+                        out.append(dict(base=base, method=method, fault=fault, pos=pos, after=False, shared=True))
     # fault-free twins (one per base x method): must reach the solver
     for base in BASES:
         for method in METHODS:
             if applicable(base, method, None):
                 out.append(dict(base=base, method=method, fault=None, pos=0, after=False))
+                if base != "twostage":
+                    out.append(dict(base=base, method=method, fault=None, pos=0, after=False, shared=True))
     return out
 
 
 def run_case(case):
-    r = scenario(case["base"], case["method"], case["fault"], case["pos"], case["after"])
-    tags = ["base=%s" % case["base"], "method=%s" % case["method"], "fault=%s" % case["fault"], "pos=%d" % case["pos"], "after=%s" % case["after"]]
+    r = scenario(case["base"], case["method"], case["fault"], case["pos"], case["after"], case.get("shared", False))
+    tags = (["shared_method_instance"] if case.get("shared") else []) + ["base=%s" % case["base"], "method=%s" % case["method"], "fault=%s" % case["fault"], "pos=%d" % case["pos"], "after=%s" % case["after"]]
     vios = []
     if case["fault"] is None:
         if r[0] != "solver_called":
@@ -334,6 +350,6 @@ def run_case(case):
 
 def describe(tier):
     return dict(
-        rule="fault enumeration (each rejected solve is retried once on the same object): %d fault kinds x applicable base programs (2- and 3-state integrator chains, parametric OCP with global/per-interval parameters and a variable, two-stage OCP, discrete-time model) x fault position x 5 method configurations (MS, MS expl_euler M=2, SS, DC, SplineMethod) x {before, after a first successful transcription and solve}; oracle: an exception by the faulty call or at the latest by ocp.solve(), with zero calls reaching casadi.Opti.solve/solve_limited (blocking spy); every base x method has a fault-free twin that must reach the solver" % len(FAULTS),
+        rule="fault enumeration (each rejected solve is retried once on the same object): %d fault kinds x applicable base programs (2- and 3-state integrator chains, parametric OCP with global/per-interval parameters and a variable, two-stage OCP, discrete-time model) x fault position x 5 method configurations (MS, MS expl_euler M=2, SS, DC, SplineMethod) x {before, after a first successful transcription and solve, on an Ocp that receives the method INSTANCE a well-posed Ocp of the same process was solved with}; oracle: an exception by the faulty call or at the latest by ocp.solve(), with zero calls reaching casadi.Opti.solve/solve_limited (blocking spy); every base x method has a fault-free twin that must reach the solver" % len(FAULTS),
         bound="single faults; all positions of the bases",
         assumptions=["a blocking spy at casadi.Opti.solve/solve_limited detects 'an NLP is handed to the solver'", "SplineMethod cases need the networkx wheel; without it they are not run"])
